@@ -624,6 +624,10 @@ inductive Res where
 `flag`/`reg`/`woken` = its notification channel (`channel.rs`) and the task's waker. -/
 structure Der where
   present : Bool := false
+  /-- `true` = the node is an `Effect` (`effect/effect.rs` task, `effect/inner.rs`): its check runs
+  with no observer and ends with `take(dirty)`, its sources are cleared before every run, `value` is
+  the last value it logged; `false` = an `ArcAsyncDerived` -/
+  isEffect : Bool := false
   dirty : Bool := false
   first : Bool := true
   flag : Bool := false
@@ -672,6 +676,8 @@ inductive Frame where
   | dAfter
   | dRunRead (rest : List (Option Nat)) (acc : List Nat)
   | dRunVal (j : Nat) (rest : List (Option Nat)) (acc : List Nat)
+  | eCheckEnd
+  | eClear (rest : List (Option Nat))
   deriving DecidableEq, Repr
 
 structure Thread where
@@ -869,16 +875,31 @@ def exec (s : State) (t : Nat) : Option State :=
       if s.der.dirty then
         go { s with der := { s.der with dirty := false } }
           { th with obs := s.defs.length :: th.obs, ret := true } (.dAfter :: rest)
+      else if s.der.isEffect then
+        -- `EffectInner::update_if_necessary`: the sources are checked under `untrack` (no observer:
+        -- the id `defs.length + 1` is nobody's), then `was_marked = take(dirty)`
+        go s { th with obs := (s.defs.length + 1) :: th.obs } (.dCheck s.der.sources :: .eCheckEnd :: .dAfter :: rest)
       else go s { th with obs := s.defs.length :: th.obs } (.dCheck s.der.sources :: .dAfter :: rest)
     | .dCheck [] => go s { th with ret := false } rest
     | .dCheck (some j :: more) => go s th (.uin j :: .dCheckAfter more :: rest)
     | .dCheck (none :: more) => go s th (.dCheck more :: rest)
     | .dCheckAfter more => if th.ret then go s th rest else go s th (.dCheck more :: rest)
+    | .eCheckEnd =>
+      go { s with der := { s.der with dirty := false } } { th with ret := th.ret || s.der.dirty } rest
+    | .eClear [] => go s th rest
+    | .eClear (some j :: more) =>
+      -- `clear_sources` (sources already taken out of the effect): `memo.remove_subscriber(effect)`
+      if !canW s j then none else
+      go (setM s j { s.ms j with subs := (s.ms j).subs.filter (· != s.defs.length) }) th (.eClear more :: rest)
+    | .eClear (none :: more) => go { s with der := { s.der with subB := false } } th (.eClear more :: rest)
     | .dAfter =>
       if th.ret || s.der.first then
-        -- run the fetcher (observer = the derived): it reads the last memo, then signal `b`
-        go { s with der := { s.der with first := false } } th
-          (.dRunRead [some (s.defs.length - 1), none] [] :: rest)
+        -- run the fetcher / the effect function (observer = the node): it reads the last memo, then
+        -- signal `b`; an effect drops its old sources first
+        go { s with der := { s.der with first := false, sources := if s.der.isEffect then [] else s.der.sources } }
+          { th with obs := s.defs.length :: th.obs.drop 1 }
+          ((if s.der.isEffect then [.eClear s.der.sources] else []) ++
+            .dRunRead [some (s.defs.length - 1), none] [] :: rest)
       else go s { th with obs := th.obs.drop 1 } (.dNext :: rest)
     | .dRunRead [] acc =>
       go { s with der := { s.der with value := some (acc.getD 0 0 * 1000 + acc.getD 1 0) } }
@@ -968,9 +989,9 @@ def initCleanOld (defs : List Def) (gateM gateL : Bool) (progs : List (List Op))
 
 /-- the `derived` scenario after its set-up: memos as the first load left them, the derived loaded,
 subscribed, its task parked in `rx.next()` -/
-def initDerived (defs : List Def) (progs : List (List Op)) : State :=
+def initDerived (defs : List Def) (progs : List (List Op)) (isEffect : Bool := false) : State :=
   let s0 := init defs true false progs
-  let s1 := { s0 with finalMode := true, der := { present := true, flag := true, woken := true } }
+  let s1 := { s0 with finalMode := true, der := { present := true, isEffect, flag := true, woken := true } }
   let s2 := setT s1 s1.n (loadOp { prog := [Op.poll] })
   let s3 := cont (fuel * 2) s2 s1.n
   setT { s3 with finalMode := false } s3.n {}
